@@ -526,6 +526,16 @@ def rule_str2array(ctx):
         ctx.check("C19.6", rowseps == {";"}, f2, rets[0].node, f"str2array [{kind}]: row separator(s) {sorted(rowseps)}", "rows split on ';'", f"row separator {sorted(rowseps)} is not ';'")
     if not seps_seen:
         ctx.unknown("C19.6", f2, f2.node, "str2array: element separators", "numeric parse not interpreted")
+    # rows -> axes: one row gives a 1-D array, several rows a 2-D one, whatever their length.  An axis-dropping call on the parsed
+    # array (squeeze / ravel / flatten / reshape(-1)) makes a single-column text ('7;-4') one-dimensional: it is no longer inverted
+    drops = lambda a: (a[0] == "fn" and a[1].split(".")[-1] in ("squeeze", "ravel", "flatten")) or (a[0] == "meth" and a[2] in ("squeeze", "ravel", "flatten"))
+    for kind in ("bool", "int", "float", "complex"):
+        rets, outs = run_case(kind, None)
+        if len(rets) != 1 or not isinstance(rets[0].value, Form):
+            continue
+        bad = [a for a in rets[0].value.atoms() if drops(a)]
+        ctx.check("C19.6", not bad, f2, rets[0].node, f"str2array [{kind}]: the parsed rows keep their axes", "1 row -> 1-D, several rows -> 2-D (no squeeze/ravel of the result)",
+                  f"the parsed array goes through {bad[0][1] if bad and bad[0][0] == 'fn' else (bad[0][2] if bad else '')}(): every axis of length one is dropped, so an N x 1 text (one element per row) comes back one-dimensional")
     # text made of 0/1 digits: token-wise for every numeric dtype, digit-by-digit otherwise
     wrong, undec = [], []
     where = f2.node
